@@ -732,6 +732,240 @@ func concurrent(p cparams) e1lib.Scenario {
 	return e1lib.Scenario{Name: p.name(), Body: body, Check: check, Cfg: rt.Config{Horizon: 30 * time.Minute}}
 }
 
+// ---- two successive requests on one client, callback configuration as a dimension ------------
+
+// sparams: request kinds "R" = GetBlockRange(byron..shelley), "G" = GetBlock(byron). The first request is
+// answered with firstScript, every later one conformingly. rawCb: BlockRawFunc instead of BlockFunc;
+// noDone: no BatchDoneFunc configured. Without a batch-done callback the application cannot see the end
+// of a batch: it simply issues its next request (which has to wait for the batch to end inside the
+// client); a range that is the last request is followed by a final GetBlock for the same reason.
+type sparams struct {
+	first, second string
+	firstScript   string
+	rawCb, noDone bool
+}
+
+func (p sparams) name() string {
+	n := fmt.Sprintf("seq|%s[%s]>%s|", p.first, scriptName(p.firstScript), p.second)
+	if p.rawCb {
+		n += "rawfunc"
+	} else {
+		n += "blockfunc"
+	}
+	if p.noDone {
+		n += "|no-batchdone-func"
+	}
+	return n
+}
+
+func sequence(p sparams) e1lib.Scenario {
+	fb, fs := fixtures['b'], fixtures['s']
+	reqOf := func(kind string) []byte {
+		if kind == "R" {
+			return space.A(space.U(msgRequestRange), pointNode(fb), pointNode(fs)).Encode()
+		}
+		return space.A(space.U(msgRequestRange), pointNode(fb), pointNode(fb)).Encode()
+	}
+	kinds := []string{p.first, p.second}
+	if p.noDone && p.second == "R" {
+		kinds = append(kinds, "G") // the final request that tells the application the last batch is over
+	}
+	scripts := []string{p.firstScript}
+	for _, k := range kinds[1:] {
+		if k == "R" {
+			scripts = append(scripts, "SbsD")
+		} else {
+			scripts = append(scripts, "SbD")
+		}
+	}
+	body := func() {
+		a, b := rt.ConnPair("client", "server")
+		m := muxer.New(a)
+		errs := make(chan error, 10)
+		batchDone := make(chan struct{}, 8)
+		var opts []blockfetch.BlockFetchOptionFunc
+		if p.rawCb {
+			opts = append(opts, blockfetch.WithBlockRawFunc(func(_ blockfetch.CallbackContext, typ uint, raw []byte) error {
+				rt.Log("cb block %d %s", typ, s2lib.Sum(raw))
+				return nil
+			}))
+		} else {
+			opts = append(opts, blockfetch.WithBlockFunc(func(_ blockfetch.CallbackContext, typ uint, blk ledger.Block) error {
+				rt.Log("cb block %d %s", typ, s2lib.Sum(blk.Cbor()))
+				return nil
+			}))
+		}
+		if !p.noDone {
+			opts = append(opts, blockfetch.WithBatchDoneFunc(func(blockfetch.CallbackContext) error {
+				rt.Log("cb done")
+				rt.Send("h:batchDone", batchDone, struct{}{})
+				return nil
+			}))
+		}
+		cfg, err := blockfetch.NewConfig(opts...)
+		if err != nil {
+			panic(err)
+		}
+		client := blockfetch.NewClient(protocol.ProtocolOptions{
+			ConnectionId: connection.ConnectionId{LocalAddr: a.LocalAddr(), RemoteAddr: a.RemoteAddr()},
+			Muxer:        m, ErrorChan: errs, Mode: protocol.ProtocolModeNodeToNode, Role: protocol.ProtocolRoleClient,
+		}, &cfg)
+		client.Start()
+		m.SetDiffusionMode(muxer.DiffusionModeInitiator)
+		m.Start()
+		connClose := make(chan struct{})
+		connClosed := make(chan struct{})
+		rt.Go("owner", func() {
+			s := rt.NewSel("owner:wait", false)
+			rt.SelRecvCase(s, connClose)
+			rt.SelRecvCase(s, errs)
+			rt.SelRecvCase(s, m.ErrorChan())
+			switch s.Choose() {
+			case 0:
+				rt.Log("conn closed by application")
+			case 1:
+				rt.Log("conn error protocol: %v", rt.SelVal(s, errs))
+			case 2:
+				if e, ok := rt.SelVal2(s, m.ErrorChan()); ok {
+					rt.Log("conn error muxer: %v", e)
+				}
+			}
+			m.Stop()
+			for range rt.Range("owner:muxdrain", m.ErrorChan()) {
+			}
+			rt.Close("owner:closed", connClosed)
+		})
+		rt.Go("peer", func() {
+			nreq := 0
+			s2lib.WireReader(b, nil, func(id uint16, msg []byte) {
+				if id != protoBlockFetch || nreq >= len(kinds) || !bytes.Equal(msg, reqOf(kinds[nreq])) {
+					rt.Log("wire unexpected message %d: %d %x", nreq+1, id, msg)
+					return
+				}
+				script := scripts[nreq]
+				nreq++
+				rt.Log("wire request %d ok", nreq)
+				for i := 0; i < len(script); i++ {
+					b.Write(s2lib.Segment(protoBlockFetch, true, letterBytes(script[i])))
+				}
+			})
+		})
+		callDone := make(chan struct{}, 2)
+		rt.Go("caller", func() {
+			defer rt.Send("h:callDone", callDone, struct{}{})
+			for i, kind := range kinds {
+				tag := fmt.Sprintf("q%d", i+1)
+				if kind == "G" {
+					blk, err := client.GetBlock(fb.point())
+					logGetBlock(tag+" ret", blk, err)
+					continue
+				}
+				if err := client.GetBlockRange(fb.point(), fs.point()); err != nil {
+					rt.Log("%s ret err %v", tag, err)
+					continue
+				}
+				rt.Log("%s ret ok", tag)
+				if !p.noDone {
+					s := rt.NewSel("caller:batch", false)
+					rt.SelRecvCase(s, batchDone)
+					rt.SelRecvCase(s, connClosed)
+					if s.Choose() == 0 {
+						rt.Log("%s completed", tag)
+					} else {
+						rt.Log("%s aborted by connection shutdown", tag)
+					}
+				}
+			}
+		})
+		finish(client, 1, callDone, connClose, connClosed)
+	}
+	check := func(r *rt.Result) []rt.Finding {
+		logs := strings.Join(r.Logs, " | ")
+		fail := func(key, what string) []rt.Finding {
+			return []rt.Finding{{Key: key, What: what + " :: " + logs}}
+		}
+		var cbs []string
+		nDone := 0
+		ret := map[string]string{}
+		completed := map[string]bool{}
+		hang, ended := false, false
+		for _, l := range r.Logs {
+			switch {
+			case strings.HasPrefix(l, "cb block "):
+				cbs = append(cbs, l[len("cb block "):])
+			case l == "cb done":
+				nDone++
+			case len(l) > 7 && l[0] == 'q' && l[2:7] == " ret ":
+				ret[l[:2]] = l[7:]
+			case len(l) > 3 && l[0] == 'q' && strings.HasSuffix(l, " completed"):
+				completed[l[:2]] = true
+			case l == "hang":
+				hang = true
+			case l == "end":
+				ended = true
+			case strings.HasPrefix(l, "wire unexpected"):
+				return fail("wrong-request-on-the-wire", l)
+			case strings.HasPrefix(l, "call returned only after"):
+				return fail("hang-until-"+strings.ReplaceAll(strings.TrimPrefix(l, "call returned only after "), " ", "-"), l)
+			}
+		}
+		if hang {
+			return fail("hang", fmt.Sprintf("request %d of the sequence never returned (blocked 300 s, 100 s more after the connection was shut down, 100 s more after client.Stop()): %s", len(ret)+1, strings.Join(r.Verdict.Stuck, "; ")))
+		}
+		if r.Verdict.Kind == "panic" {
+			return fail("panic:"+strings.SplitN(r.Verdict.Detail, "\n", 2)[0], r.Verdict.Detail)
+		}
+		if r.Verdict.Kind != "ok" || !ended {
+			return fail("verdict:"+r.Verdict.Kind, r.Verdict.Detail+" "+strings.Join(r.Verdict.Stuck, "; "))
+		}
+		// reference: every batch here is complete and nothing closes, so everything is determined
+		wantBlock := fmt.Sprintf("block %s hash %x", fb.sum, fb.hash)
+		var wantCbs []string
+		wantDone := 0
+		for i, kind := range kinds {
+			tag := fmt.Sprintf("q%d", i+1)
+			script := scripts[i]
+			if kind == "R" {
+				want := "ok"
+				if script == "N" {
+					want = "err"
+				}
+				if got := ret[tag]; got != want && !(want == "err" && strings.HasPrefix(got, "err ")) {
+					return fail("range:wrong-result", fmt.Sprintf("request %d (GetBlockRange, batch %s) returned %q, want %s", i+1, scriptName(script), got, want))
+				}
+				for k := 0; k < len(script); k++ {
+					if f, ok := fixtures[script[k]]; ok {
+						wantCbs = append(wantCbs, fmt.Sprintf("%d %s", f.typ, f.sum))
+					}
+				}
+				if script != "N" && !p.noDone {
+					wantDone++
+					if !completed[tag] {
+						return fail("range:not-completed", fmt.Sprintf("request %d: batch-done callback did not run", i+1))
+					}
+				}
+				continue
+			}
+			got := ret[tag]
+			if script == "SbD" {
+				if got != wantBlock {
+					return fail("getblock:matching-block-not-returned", fmt.Sprintf("request %d (GetBlock, conforming batch) returned %q", i+1, got))
+				}
+			} else if !strings.HasPrefix(got, "err ") {
+				return fail("getblock:non-conforming-batch-accepted", fmt.Sprintf("request %d (GetBlock, batch %s) returned %q", i+1, scriptName(script), got))
+			}
+		}
+		if strings.Join(cbs, ";") != strings.Join(wantCbs, ";") {
+			return fail("range:blocks-not-delivered", fmt.Sprintf("block callbacks %v, served to range requests %v", cbs, wantCbs))
+		}
+		if nDone != wantDone {
+			return fail("range:batch-done-count", fmt.Sprintf("batch-done callback ran %d times, want %d", nDone, wantDone))
+		}
+		return nil
+	}
+	return e1lib.Scenario{Name: p.name(), Body: body, Check: check, Cfg: rt.Config{Horizon: 30 * time.Minute}}
+}
+
 func TestC23(t *testing.T) {
 	e1lib.Main(t, "C23", func(thorough bool) []e1lib.Scenario {
 		var ps []params
@@ -807,6 +1041,44 @@ func TestC23(t *testing.T) {
 			{calls: [2]string{"Gb", "Gs"}},
 		} {
 			s := concurrent(cp)
+			s.MinB, s.MaxB, s.Budget = 1, 1, 60*time.Second
+			if thorough {
+				s.MinB, s.MaxB, s.Budget = 2, 2, 15*time.Minute
+			}
+			scs = append(scs, s)
+		}
+		// two successive requests on one client x callback configuration {BlockFunc, BlockRawFunc} x
+		// {BatchDoneFunc set, nil}; then sequences whose first request fails or is empty
+		var sps []sparams
+		for _, sq := range [][2]string{{"R", "R"}, {"R", "G"}, {"G", "R"}} {
+			for _, raw := range []bool{false, true} {
+				for _, noDone := range []bool{false, true} {
+					fsx := "SbsD"
+					if sq[0] == "G" {
+						fsx = "SbD"
+					}
+					sps = append(sps, sparams{first: sq[0], second: sq[1], firstScript: fsx, rawCb: raw, noDone: noDone})
+				}
+			}
+		}
+		sps = append(sps,
+			sparams{first: "R", second: "R", firstScript: "N"},
+			sparams{first: "R", second: "G", firstScript: "N", noDone: true},
+			sparams{first: "R", second: "R", firstScript: "SD", noDone: true},
+			sparams{first: "G", second: "R", firstScript: "N"},
+			sparams{first: "G", second: "R", firstScript: "SsD", noDone: true},
+			sparams{first: "G", second: "R", firstScript: "SbsD", rawCb: true},
+		)
+		if thorough {
+			sps = append(sps,
+				sparams{first: "R", second: "G", firstScript: "SD", rawCb: true, noDone: true},
+				sparams{first: "R", second: "R", firstScript: "SsD", rawCb: true},
+				sparams{first: "G", second: "R", firstScript: "SD"},
+				sparams{first: "G", second: "G", firstScript: "SsD"},
+			)
+		}
+		for _, sp := range sps {
+			s := sequence(sp)
 			s.MinB, s.MaxB, s.Budget = 1, 1, 60*time.Second
 			if thorough {
 				s.MinB, s.MaxB, s.Budget = 2, 2, 15*time.Minute
